@@ -60,11 +60,23 @@ func c14SourcePhase(r *core.Run) {
 	defer os.RemoveAll(root)
 	rounds := r.N(16, 160)
 	shared := stack.DefaultOpts()
-	shared.LocalGOPATHs = nil
+	// two GOPATHs; every third round has its sources in the second one (found through a remote root with another name)
+	gpA, gpB := filepath.ToSlash(filepath.Join(root, "gpA")), filepath.ToSlash(filepath.Join(root, "gpB"))
+	_ = os.MkdirAll(gpA+"/src/unrelated", 0o755)
+	_ = os.MkdirAll(gpB+"/src", 0o755)
+	shared.LocalGOPATHs = []string{gpA, gpB}
+	sharedBefore := *shared
+	sharedBefore.LocalGOPATHs = append([]string{}, shared.LocalGOPATHs...)
 	augmented, compared := 0, 0
 	for round := 0; round < rounds; round++ {
 		rr := core.NewRand(r.Seed, 143, uint64(round))
 		dir := filepath.ToSlash(filepath.Join(root, fmt.Sprintf("r%d", round), "app"))
+		remoteDir := dir
+		inGOPATH := round%3 == 1
+		if inGOPATH {
+			dir = fmt.Sprintf("%s/src/c14app_r%d", gpB, round)
+			remoteDir = fmt.Sprintf("/remote/build/gopath/src/c14app_r%d", round)
+		}
 		if err := os.MkdirAll(dir, 0o755); err != nil {
 			r.Broken(err.Error())
 			return
@@ -72,12 +84,12 @@ func c14SourcePhase(r *core.Run) {
 		m, u := c14Sources(rr)
 		_ = os.WriteFile(dir+"/main.go", m, 0o644)
 		_ = os.WriteFile(dir+"/util.go", u, 0o644)
-		if round%2 == 0 {
+		if round%2 == 0 && !inGOPATH {
 			_ = os.WriteFile(dir+"/go.mod", []byte("module example.com/c14app\n\ngo 1.20\n"), 0o644)
 		}
 		inputs := make([][]byte, 1+rr.Intn(3))
 		for i := range inputs {
-			inputs[i] = c14SrcDump(rr, dir)
+			inputs[i] = c14SrcDump(rr, remoteDir)
 		}
 		w := 4 + rr.Intn(13)
 		got := make([]*stack.Snapshot, w)
@@ -118,6 +130,14 @@ func c14SourcePhase(r *core.Run) {
 		}
 		r.DistinctN(len(inputs))
 		_ = os.RemoveAll(filepath.Join(root, fmt.Sprintf("r%d", round)))
+		if inGOPATH {
+			_ = os.RemoveAll(dir)
+			r.Count("source_phase_rounds_in_second_gopath", 1)
+		}
+		if fmt.Sprint(*shared) != fmt.Sprint(sharedBefore) {
+			r.Violation("options-modified", fmt.Sprintf("the options value shared by the scans was modified by them: %v, was %v", *shared, sharedBefore), "conc", map[string]any{"round": round})
+			return
+		}
 	}
 	r.Set("source_phase_rounds", rounds)
 	r.Set("source_phase_concurrent_scans_compared", compared)
